@@ -11,6 +11,8 @@ use crate::refsem::{Abs, RefSem, Sem};
 use crate::report::{catch, Ctx, Tier};
 use crate::rng::{Hasher64, Rng};
 use crate::solvers::{ask_fresh, Enc, QKind, Query, SolverType};
+#[allow(unused_imports)]
+use crate::solvers::cli_dispatch;
 use crustabri::aa::{AAFramework, ArgumentSet};
 use crustabri::utils::EquivalencyComputer;
 use serde_json::{json, Value};
@@ -311,6 +313,122 @@ fn c18_dynamic(ctx: &mut Ctx, rng: &mut Rng, replay: Option<&dynamic::HistCase>)
     }
 }
 
+/// The same bound observed at the process boundary: SAT calls of `crustabri solve` are counted
+/// from the `launching SAT solver` lines it logs at level info (one per call), for the encoder the
+/// binary selects by itself or on request.
+fn c18_cli(ctx: &mut Ctx, rng: &mut Rng, abs: &Abs, family: &str) {
+    use crate::props::cli::run as run_bin;
+    if abs.n == 0 || !abs.is_connected() {
+        return;
+    }
+    let rs = match RefSem::new(abs) {
+        Ok(r) => r,
+        Err(e) => {
+            ctx.harness_error(&e.0);
+            return;
+        }
+    };
+    let dir = ctx.out_dir.join(format!("c18-cli-{}", ctx.shard));
+    let _ = std::fs::create_dir_all(&dir);
+    let file = dir.join("instance.af");
+    let mut text = format!("p af {}\n", abs.n);
+    for (a, b) in abs.att.iter() {
+        text.push_str(&format!("{} {}\n", a + 1, b + 1));
+    }
+    if std::fs::write(&file, &text).is_err() {
+        ctx.harness_error("cannot write instance");
+        return;
+    }
+    let bin = ctx.repo_bin_dir.join("crustabri");
+    let exp_ok = crate::props::static_eval::exp_cost(abs) <= 2000;
+    // (problem, needs argument)
+    let problems = ["DS-PR", "SE-PR", "DS-ID", "DC-ID", "SE-ID", "DC-SST", "DS-SST", "SE-SST", "DC-STG", "DS-STG", "DC-CO", "DC-ST", "DS-ST", "SE-ST"];
+    let picked: Vec<&str> = {
+        let mut v = vec!["DS-PR", "SE-PR", "DS-ID"];
+        for _ in 0..3 {
+            v.push(*rng.pick(&problems));
+        }
+        v
+    };
+    for prob in picked {
+        let (q, s) = prob.split_once('-').unwrap();
+        let sem = Sem::from_name(s).unwrap();
+        let kind = crate::solvers::QKind::from_name(q).unwrap();
+        let ty = crate::solvers::cli_dispatch(kind, sem);
+        for enc_flag in [None, Some("exp"), Some("hybrid")] {
+            if enc_flag == Some("exp") && !exp_ok {
+                continue;
+            }
+            if enc_flag.is_some() && !rng.pct(35) {
+                continue;
+            }
+            // the encoder documented for this problem and flag
+            let enc = match (ty, kind, enc_flag) {
+                (SolverType::Stable, _, _) => Enc::Stable,
+                (SolverType::Stage, _, None) | (SolverType::Stage, _, Some("exp")) | (SolverType::Stage, _, Some("hybrid")) => Enc::ExpCf,
+                (SolverType::Preferred, QKind::SE, None) => Enc::AuxAdm,
+                (_, _, None) => Enc::AuxCo,
+                (_, _, Some("exp")) => Enc::ExpCo,
+                (_, _, _) => Enc::Hybrid,
+            };
+            let t = Target { ty, kind, sem, cert_sem: sem };
+            let bound = component_bound(&rs, &t, enc);
+            let args_to_ask: Vec<Option<usize>> = if kind == QKind::SE {
+                vec![None]
+            } else if prob == "DS-PR" || prob == "DS-ID" {
+                (0..abs.n).map(Some).collect()
+            } else {
+                vec![Some(rng.below(abs.n)), Some(rng.below(abs.n))]
+            };
+            for a in args_to_ask {
+                let mut args: Vec<String> = vec!["solve".into(), "-f".into(), file.to_string_lossy().to_string(), "-p".into(), prob.into(), "--logging-level".into(), "info".into()];
+                if let Some(a) = a {
+                    args.push("-a".into());
+                    args.push((a + 1).to_string());
+                }
+                if let Some(e) = enc_flag {
+                    args.push("--encoding".into());
+                    args.push(e.into());
+                }
+                if rng.pct(30) {
+                    args.push("-c".into());
+                }
+                let out = match run_bin(&bin, &args) {
+                    Some(o) => o,
+                    None => {
+                        ctx.inconclusive("cli-run-failed-or-timed-out");
+                        continue;
+                    }
+                };
+                ctx.eval();
+                ctx.count("cli_sat_call_counts");
+                if out.code != Some(0) {
+                    ctx.inconclusive("cli-run-non-zero-exit");
+                    continue;
+                }
+                let calls = out.stdout.matches("launching SAT solver").count() as u64;
+                ctx.maximum("cli_longest_enumeration_calls", calls);
+                if bound > 0 {
+                    ctx.maximum("cli_max_calls_times_100_over_bound", calls * 100 / bound);
+                }
+                if calls > bound {
+                    ctx.violation(
+                        &format!("C18/cli/bound-exceeded/{}/{}", prob, enc_flag.unwrap_or("default")),
+                        json!({"problem": prob, "invocation": args, "sat_calls_logged": calls, "bound": bound, "family": family,
+                               "complete_sets": rs.co.len(), "admissible_sets": rs.adm.len(), "preferred": rs.pr.len(), "instance": text}),
+                        &json!({"sub": "cli", "graph": gen::abs_to_json(abs), "family": family}),
+                    );
+                    return;
+                }
+                if calls >= 3 {
+                    let s = format!("{}{:?}{:?}", prob, a, enc_flag);
+                    ctx.nontrivial(gen::case_hash(abs, &["cli", &s]));
+                }
+            }
+        }
+    }
+}
+
 pub fn run_c18(ctx: &mut Ctx) {
     let q = ctx.tier == Tier::Quick;
     let lim = GenLimits { er_max: 10, ..Default::default() };
@@ -322,6 +440,8 @@ pub fn run_c18(ctx: &mut Ctx) {
         ("union", if q { 2_400 } else { 40_000 }),
         ("dup", if q { 1_000 } else { 15_000 }),
         ("dynamic", if q { 12_000 } else { 200_000 }),
+        ("cli-adm-rich", if q { 48 } else { 1_500 }),
+        ("cli-sparse", if q { 32 } else { 1_500 }),
     ];
     let mut gi = 0u64;
     for (family, count) in schedule {
@@ -339,6 +459,21 @@ pub fn run_c18(ctx: &mut Ctx) {
             }
             if family == "dynamic" {
                 crate::report::guarded(ctx, |ctx| c18_dynamic(ctx, &mut rng, None));
+                continue;
+            }
+            if family.starts_with("cli-") {
+                let g = if family == "cli-adm-rich" {
+                    let k = rng.range(3, 6);
+                    gen::adm_rich(&mut rng, k)
+                } else {
+                    // sparse connected graph: few complete extensions, many admissible sets
+                    let n = rng.range(8, 12);
+                    let mut g = gen::er(&mut rng, n, 12, 5);
+                    gen::connect(&mut g, &mut rng);
+                    g
+                };
+                ctx.case_begin(&json!({"family": family, "i": i}));
+                crate::report::guarded(ctx, |ctx| c18_cli(ctx, &mut rng, &g, family));
                 continue;
             }
             let mut case = gen_case(family, i, ctx.seed, &lim);
@@ -367,6 +502,14 @@ pub fn run_c18(ctx: &mut Ctx) {
 
 pub fn replay_c18(ctx: &mut Ctx, case: &Value, detail: &Value) -> Result<(), String> {
     let mut rng = Rng::new(18);
+    if case.get("sub").and_then(|s| s.as_str()) == Some("cli") {
+        let g = gen::abs_from_json(&case["graph"]).ok_or("bad graph")?;
+        for k in 0..4 {
+            let mut r = Rng::new(180 + k);
+            c18_cli(ctx, &mut r, &g, "replay");
+        }
+        return Ok(());
+    }
     if case.get("sub").and_then(|s| s.as_str()) == Some("dynamic") {
         let h = dynamic::HistCase::from_json(&case["history"]).ok_or("bad history")?;
         c18_dynamic(ctx, &mut rng, Some(&h));
